@@ -3,24 +3,49 @@ import vf
 
 META = {
     "claimed": True,
-    "text": "TODO",
-    "note": "TODO",
-    "technique": "Coq proof + model/implementation correspondence",
+    "text": ("Coq theorems over a Gallina model of rten-text (models/bpe.rs: byte_to_char/char_to_byte, Bpe::new, encode_piece, "
+             "decode; tokenizer.rs: encode_str/encode_chunks/encode without cls/sep, text_for_token_range): the 256-entry "
+             "byte<->char tables are mutually inverse; merging preserves the concatenation of the pieces; for every tokenizer "
+             "Bpe::new accepts (no end-of-word suffix, distinct vocabulary ids, consistent added tokens), every pre-tokenizer that "
+             "splits its input into consecutive valid-UTF-8 chunks and every valid UTF-8 text, decode(encode(text)) = text; for "
+             "ANY Bpe model the offsets encode reports are non-decreasing, on char boundaries within the input, and the slices "
+             "they delimit (and text_for_token_range returns) concatenate to the input -- also behind a normalizer whose offset "
+             "map is monotone, starts at 0 and maps char boundaries to char boundaries. No bound on text, table or vocabulary "
+             "size. The regex pre-tokenizer and the Unicode normalizers are oracles: their answers are inputs of the model and "
+             "the hypotheses on them are checked on every case. Tie: Tokenizer::{encode,decode}, token_offsets, "
+             "text_for_token_range and char_to_byte() are run on generated tokenizers (trained merge tables, default and "
+             "scrambled vocabularies, added tokens, ignore_merges, 12 pre-tokenizers, 10 normalizers) and Unicode texts and "
+             "compared with the model inside Coq; the implementation's own outputs are checked against the property there."),
+    "note": ("Trusted: Coq kernel; the correspondence sample (a test, not a proof); fancy-regex, unicode-normalization and the "
+             "std UTF-8 routines (from_utf8, is_char_boundary, str::get: modelled); FxHashMap as a finite map. Vocabularies with "
+             "shared ids and tokenizers with an end-of-word suffix are outside the round-trip theorem (decode then appends the "
+             "suffix); lossy pre-tokenizers (delimiter removal) and normalizers violating norm_ok are outside the hypotheses. "
+             "Finding F41 (fixed, a203783): chunk offsets were not mapped back through the normalizer's offset map."),
+    "technique": "Coq proof (finite table by vm_compute lifted with forallb_forall; induction on chunks/tables; string-level transport from C28) + model/implementation correspondence",
 }
 GROUP = "bpe"
 REQ = "From RV Require Import Prelude.\nFrom Bpe Require Import ModelBpe ModelC27.\nOpen Scope N_scope."
-THEOREMS = []
+THEOREMS = ["C27_byte_char_bijection", "C27_merge_preserves_concat", "C27_bpe_merge_preserves_concat",
+            "C27_decode_encode", "C27_decode_encode_normalized", "C27_offsets_monotone_boundaries_cover",
+            "C27_nonvacuous"]
 
 
 def main(ctx):
+    ctx.rule = ("one TABLE case (the implementation's char_to_byte map) + one case per generated tokenizer: merges trained on "
+                "the case's own texts (so they fire), vocabulary default or scrambled ids, added tokens (fresh id / same as a "
+                "vocabulary entry / clashing), 4-11 Unicode texts (controls, combining marks, astral plane, special-token text, "
+                "whitespace runs, empty string, random scalars) each run through encode, token_offsets, "
+                "text_for_token_range(i..i+1) and decode, plus 6 decode probes on arbitrary ids; non-trivial = the tokenizer "
+                "was built and the pre-tokenizer did not drop text; distinct = distinct input lines")
+    ctx.trusted += ["oracles (inputs of the model, hypotheses checked per case): fancy-regex pre-tokenizers, Unicode/Bert/Replace normalizers",
+                    "modelled, not verified: String::from_utf8, str::is_char_boundary, str::get, FxHashMap, slice::subslice_offsets"]
+    ctx.assumptions += ["merge list shorter than 2^32 entries", "vocabulary ids pairwise distinct; no end_of_word_suffix (round trip)",
+                        "pre-tokenizer chunks are consecutive and cover the (normalized) text; normalizer offset map satisfies norm_ok"]
     ctx.audit(GROUP)
-    failed = []
-    ok, out = ctx.make(GROUP, ["ModelC27.vo"])
-    if not ok:
-        raise vf.CheckerBroken(out[-2000:])
+    failed = ctx.prove(GROUP, "Props_C27", THEOREMS)
     bindir = ctx.harness(GROUP, profile="release", bins=["c27"])
     cases = ctx.gen_exec(bindir, "c27", ctx.n(150, 3000), inputs=ctx.replay_inputs())
-    ctx.correspond("Tokenizer::encode/decode", GROUP, REQ, cases, show="show", shard=ctx.n(10, 40),
-                   fn_name="Bpe.ModelBpe.{bpe_new,tk_encode,decode,byte_to_char}")
+    ctx.correspond("Tokenizer::encode/decode", GROUP, REQ, cases, show="show", shard=ctx.n(10, 60),
+                   fn_name="Bpe.ModelBpe.{byte_to_char,bpe_new,tk_encode,text_for_token,decode}")
     if failed and not ctx.violations:
         ctx.proof_broken(failed, "all correspondence cases of this run")
